@@ -8,13 +8,13 @@ WT=$(mktemp -d /tmp/seedwt.XXXXXX)
 rmdir "$WT"
 git -C /repo worktree add -q --detach "$WT" HEAD || exit 3
 cd "$WT"
-PYTHONPATH="$WT" timeout 300 /venv/bin/python "$D/demo.py" >/tmp/seedverify.clean.out 2>&1; CLEAN=$?
-if ! git apply "$D/patch.diff" 2>/tmp/seedverify.apply.err; then
-  echo "RESULT $D: PATCH-DOES-NOT-APPLY $(head -1 /tmp/seedverify.apply.err)"; cd /; git -C /repo worktree remove --force "$WT"; exit 2
+PYTHONPATH="$WT" timeout 300 /venv/bin/python "$D/demo.py" >$D/.verify.clean.out 2>&1; CLEAN=$?
+if ! git apply "$D/patch.diff" 2>$D/.verify.apply.err && ! (patch -p1 --fuzz=3 -s < "$D/patch.diff" && find . -name "*.orig" -delete); then
+  echo "RESULT $D: PATCH-DOES-NOT-APPLY $(head -1 $D/.verify.apply.err)"; cd /; git -C /repo worktree remove --force "$WT"; exit 2
 fi
 /venv/bin/python -c "import ast,sys,glob
 [ast.parse(open(f).read()) for f in glob.glob('darr/*.py')]" || { echo "RESULT $D: DOES-NOT-PARSE"; cd /; git -C /repo worktree remove --force "$WT"; exit 2; }
-PYTHONPATH="$WT" timeout 300 /venv/bin/python "$D/demo.py" >/tmp/seedverify.mut.out 2>&1; MUT=$?
+PYTHONPATH="$WT" timeout 300 /venv/bin/python "$D/demo.py" >$D/.verify.mut.out 2>&1; MUT=$?
 TESTS=$(PYTHONPATH="$WT" timeout 1200 /venv/bin/python -m pytest -q -p no:cacheprovider --timeout=900 -n 6 2>&1 | tail -1)
 cd /; git -C /repo worktree remove --force "$WT"
 echo "RESULT $D: demo_clean=$CLEAN demo_mutant=$MUT tests='$TESTS'"
